@@ -17,6 +17,7 @@ type fnEffects struct {
 	printVia     string          // one witness chain
 	globalStores map[string]bool // non-map package-level variables stored (incl. through fields/elements)
 	mapUpdates   map[string]bool // package-level maps updated
+	mapDeletes   map[string]bool // package-level maps an entry is deleted from
 	exits        bool
 }
 
@@ -83,7 +84,7 @@ func (w *World) Effects() *effectTable {
 	}
 	t := &effectTable{w: w, direct: map[*ssa.Function]*fnEffects{}, trans: map[*ssa.Function]*fnEffects{}}
 	for _, fn := range w.Funcs {
-		e := &fnEffects{globalStores: map[string]bool{}, mapUpdates: map[string]bool{}}
+		e := &fnEffects{globalStores: map[string]bool{}, mapUpdates: map[string]bool{}, mapDeletes: map[string]bool{}}
 		for _, b := range fn.Blocks {
 			for _, ins := range b.Instrs {
 				switch x := ins.(type) {
@@ -96,6 +97,11 @@ func (w *World) Effects() *effectTable {
 						e.mapUpdates[globalName(g)] = true
 					}
 				case *ssa.Call:
+					if bi, ok := x.Call.Value.(*ssa.Builtin); ok && bi.Name() == "delete" && len(x.Call.Args) > 0 {
+						if g := rootGlobal(x.Call.Args[0]); g != nil && g.Pkg != nil && inModule(g.Pkg.Pkg.Path()) {
+							e.mapDeletes[globalName(g)] = true
+						}
+					}
 					if cal := x.Call.StaticCallee(); cal != nil {
 						if isPrintFunc(cal) {
 							e.prints = true
@@ -121,7 +127,7 @@ func (t *effectTable) Of(fn *ssa.Function) *fnEffects {
 	if e, ok := t.trans[fn]; ok {
 		return e
 	}
-	res := &fnEffects{globalStores: map[string]bool{}, mapUpdates: map[string]bool{}}
+	res := &fnEffects{globalStores: map[string]bool{}, mapUpdates: map[string]bool{}, mapDeletes: map[string]bool{}}
 	cg := t.w.CallGraph()
 	seen := map[*ssa.Function]bool{}
 	var visit func(f *ssa.Function, chain string)
@@ -143,6 +149,9 @@ func (t *effectTable) Of(fn *ssa.Function) *fnEffects {
 			}
 			for k := range d.mapUpdates {
 				res.mapUpdates[k] = true
+			}
+			for k := range d.mapDeletes {
+				res.mapDeletes[k] = true
 			}
 		}
 		n := cg.Nodes[f]
